@@ -2,6 +2,8 @@
 // Goyang.Model.Indent, by complete enumeration of texts x prefixes x chunkings x the position
 // at which the underlying writer stops short; on a disagreement the executable specification
 // (Goyang.Spec.Indent, driver ops spec.indent / spec.count) is evaluated on the Go output.
+// history.go: histories in which the caller goes on writing after short writes (the sink works
+// again): real code = model (`writes`) and real code = specification of histories (`spec.writes`).
 package main
 
 import (
@@ -103,6 +105,24 @@ func runGo(c tcase) (string, int) {
 	return lib.Hex(u.buf.Bytes()) + " ;" + res.String(), u.lastLen
 }
 
+func pick(c bool, a, b int) int {
+	if c {
+		return a
+	}
+	return b
+}
+
+// lastCount is the count returned by the last Write of a canonical Go line ("... n:e").
+func lastCount(g string) int {
+	i := strings.LastIndexByte(g, ' ')
+	j := strings.LastIndexByte(g, ':')
+	if i < 0 || j < i {
+		return 0
+	}
+	n, _ := strconv.Atoi(g[i+1 : j])
+	return n
+}
+
 func compositions(b []byte, withEmpty bool) [][][]byte {
 	if len(b) == 0 {
 		return [][][]byte{{}}
@@ -184,6 +204,15 @@ func main() {
 		"(", "\t", "\x00", "\r", "\r\n", " ", "\u2028"}
 	var cases []tcase
 	var goOut []string
+	// histories that go on after a short write (history.go): every short write of the enumeration on
+	// texts of at most histSym symbols (histSymSpecial under the special prefixes) is continued (resume
+	// with the remainder / skip it), and on texts of at most histSym2 symbols (main prefixes; thorough:
+	// special prefixes up to 2 symbols) the resumed Write is cut short again at every offset
+	var hcases []hcase
+	histSym, histSymSpecial, histSym2, histSym2Special := 3, 2, 3, 0
+	if f.Thorough() {
+		histSym, histSymSpecial, histSym2, histSym2Special = 4, 3, 3, 2
+	}
 	distinct := lib.NewDistinct()
 	nontrivial := int64(0)
 	for pi, pre := range append(append([]string{}, prefixes...), specialPrefixes...) {
@@ -194,6 +223,7 @@ func main() {
 			if pi >= len(prefixes) && symbols(t) > 3 {
 				continue
 			}
+			sym := symbols(t)
 			for _, parts := range compositions(t, len(t) <= 4) {
 				chunks := make([]string, len(parts))
 				for i, p := range parts {
@@ -214,6 +244,14 @@ func main() {
 						g, handed := runGo(c)
 						cases = append(cases, c)
 						goOut = append(goOut, g)
+						if hs, hs2 := pick(pi < len(prefixes), histSym, histSymSpecial), pick(pi < len(prefixes), histSym2, histSym2Special); sym <= hs {
+							for _, h := range continuations(pre, parts, i, k, lastCount(g), sym <= 3) {
+								hcases = append(hcases, h)
+								if h.How == "resume" && sym <= hs2 {
+									hcases = append(hcases, secondFaults(h, i)...)
+								}
+							}
+						}
 						if k >= handed {
 							break
 						}
@@ -355,6 +393,8 @@ func main() {
 				SpecVerdict: v, What: "indent.String differs from the model; spec says " + specAns, Replay: map[string]any{"oneshot": oneReq[i]}})
 		}
 	}
+	histN, histNontrivial := histories(f, res, d, hcases)
+	nontrivial += histNontrivial
 	short, full := int64(0), int64(0)
 	for i, c := range cases {
 		if c.FailAt >= 0 {
@@ -379,10 +419,10 @@ func main() {
 	// addressed to either of them in every interleaving (a line may be open at a hand-over)
 	nestedN := nested(f, res, maxLen-2) + siblings(f, res)
 	res.Distribution["nested_writer_cases"] = nestedN
-	res.Evaluations = int64(len(cases)+len(oneReq)) + nestedN
+	res.Evaluations = int64(len(cases)+len(oneReq)) + nestedN + histN
 	res.DistinctNontrivial = nontrivial
 	res.Exhaustive = true
-	res.Rule = fmt.Sprintf("complete enumeration: texts of <= %d symbols over {a, LF, e-acute(2 bytes)} x prefixes {>, >>, e-acute, two with a line feed; and, on texts of <= 3 symbols, 21 prefixes of characters special to regexp templates / fmt / regexps / escapes (dollar templates, backslash escapes, percent verbs, regexp metacharacters, NUL, tab, CR, U+2028)} x all splittings of the bytes into Write calls (plus empty Writes) x (no failure | the underlying writer stopping after k bytes of any one Write, k = 0..len handed down, k = len meaning full length reported together with an error); comparison stops at the first failing Write. distinct_nontrivial = distinct cases with a line feed in the text and either more than one Write or a short write", maxLen)
+	res.Rule = fmt.Sprintf("complete enumeration: texts of <= %d symbols over {a, LF, e-acute(2 bytes)} x prefixes {>, >>, e-acute, two with a line feed; and, on texts of <= 3 symbols, 21 prefixes of characters special to regexp templates / fmt / regexps / escapes (dollar templates, backslash escapes, percent verbs, regexp metacharacters, NUL, tab, CR, U+2028)} x all splittings of the bytes into Write calls (plus empty Writes) x (no failure | the underlying writer stopping after k bytes of any one Write, k = 0..len handed down, k = len meaning full length reported together with an error); in these cases comparison stops at the first failing Write. Histories that go on after a short write (the sink works again): every short write of the enumeration on texts of <= %d symbols (<= %d under the special prefixes) continued by the caller resuming with the unwritten remainder and the rest of the text, or skipping the remainder (at the end of the text: one more letter / line feed); on texts of <= %d symbols (main prefixes) the resumed Write cut short again at every offset and resumed again; plus seeded random histories (texts of 3-26 symbols, chunks of 1-6 bytes, a sink failing at 1-4 scripted absolute byte offsets, resume or skip after each failure); in these the real writer is compared with the model AND with the specification of histories (accepted bytes rendered as one text, truthful counts, nothing asked after a cut inside a prefix). distinct_nontrivial = distinct cases with a line feed in the text and either more than one Write or a short write (histories: a short write followed by a further Write)", maxLen, histSym, histSymSpecial, histSym2)
 	res.Distribution["all_success_cases"] = full
 	res.Distribution["short_write_cases"] = short
 	res.Distribution["oneshot_cases"] = len(oneReq)
@@ -670,6 +710,19 @@ func replay(f *lib.Flags) {
 		m, _ := d.Ask(one.Oneshot)
 		fmt.Printf("input: %s\ngo:    %s\nmodel: %s\n", one.Oneshot, g, m)
 		if g != m {
+			os.Exit(1)
+		}
+		return
+	}
+	var h hcase
+	if json.Unmarshal(p.Disagreement.Replay, &h) == nil && h.Ks != nil {
+		g := runHist(h)
+		m, _ := d.Ask(h.request("writes"))
+		sp, _ := d.Ask(h.request("spec.writes"))
+		dis := judgeWith(d, h, g, m, sp)
+		fmt.Printf("input: %+v\ngo:    %s\nmodel: %s\nspec:  %s\n", h, g.out, m, sp)
+		if dis != nil {
+			fmt.Printf("verdict: %s known=%q (%s)\n", dis.SpecVerdict, dis.Known, dis.What)
 			os.Exit(1)
 		}
 		return
